@@ -8,6 +8,7 @@ import (
 	"crypto/sha256"
 	"encoding/hex"
 	"encoding/json"
+	"errors"
 	"fmt"
 	"io"
 	"os"
@@ -477,6 +478,9 @@ func (layersSuite) Run(raw json.RawMessage) []Step {
 		var read [][]lEntry
 		if err != nil {
 			sout = "err"
+			if errors.Is(err, errLPanic) {
+				sout = "panic"
+			}
 		} else {
 			for _, l := range layers {
 				es, err := lReadLayer(l)
@@ -531,7 +535,7 @@ func (layersSuite) Run(raw json.RawMessage) []Step {
 		for _, p := range byName {
 			fine = append(fine, []*apk.Package{p})
 		}
-		layers, err := build.VerifSplitLayers(ctx, fsys, fine, tmp)
+		layers, err := lNoPanic(func() ([]v1.Layer, error) { return build.VerifSplitLayers(ctx, fsys, fine, tmp) })
 		splitOn(0, "one group per package", fine, layers, err)
 	}
 
@@ -568,7 +572,7 @@ func (layersSuite) Run(raw json.RawMessage) []Step {
 		// depends on the budget only through the groups, so each distinct grouping is split once
 		if ge := lEncGroups(groups); !seenGroups[ge] {
 			seenGroups[ge] = true
-			layers, err := build.VerifLayersOfFS(ctx, fsys, pkgs, b, tmp)
+			layers, err := lNoPanic(func() ([]v1.Layer, error) { return build.VerifLayersOfFS(ctx, fsys, pkgs, b, tmp) })
 			splitOn(b, fmt.Sprintf("budget=%d", b), groups, layers, err)
 		}
 	}
@@ -576,6 +580,19 @@ func (layersSuite) Run(raw json.RawMessage) []Step {
 		steps = append(steps, runLayersE2E(ctx, c.E2E, tmp)...)
 	}
 	return steps
+}
+
+var errLPanic = errors.New("panic")
+
+// lNoPanic turns a panic of the code under test (packageToWriter[..] missing) into an outcome of the step,
+// so that the other steps of the case are still reported.
+func lNoPanic(f func() ([]v1.Layer, error)) (ls []v1.Layer, err error) {
+	defer func() {
+		if r := recover(); r != nil {
+			ls, err = nil, fmt.Errorf("%w: %v", errLPanic, r)
+		}
+	}()
+	return f()
 }
 
 func lDescPkgs(c lCase) string {
